@@ -763,7 +763,7 @@ VARIANTS = [
     ("C08", "C08.b", "timed wait_for() on the cid claim gives up inside the try whose finally releases both tagging claims",
      rep_in(FHS, "_synchronize_object_locked_cids", "                while cid in self.object_locked_cids_th:\n                    self.fhs_logger.debug(f\"Cid ({cid}) is locked. Waiting.\")\n                    self.object_cid_condition_th.wait()\n",
             "                if not self.object_cid_condition_th.wait_for(lambda: cid not in self.object_locked_cids_th, 3600):\n                    raise TimeoutError(f\"Cid ({cid}) is locked.\")\n")),
-    ("C08", None, "twin: timed wait_for() on the object pid claim (first claim of delete_object, taken before its try) gives up with an error",
+    ("C08", "C08.j", "timed wait_for() on the object pid claim gives up with an error: in store_object the claim is taken inside the try whose finally releases it",
      rep_in(FHS, "_synchronize_object_locked_pids", "                while pid in self.object_locked_pids_th:\n                    self.fhs_logger.debug(f\"Pid ({pid}) is locked. Waiting.\")\n                    self.object_pid_condition_th.wait()\n",
             "                if not self.object_pid_condition_th.wait_for(lambda: pid not in self.object_locked_pids_th, 3600):\n                    raise TimeoutError(f\"Pid ({pid}) is locked.\")\n")),
     ("C08", None, "twin: a local bound under a condition and read later under the same condition (size message built up front)",
@@ -921,6 +921,15 @@ VARIANTS = [
      rep_in(FHS, "_rename_path_for_deletion", '        delete_path = path.with_name(path.stem + "_delete" + path.suffix)\n        shutil.move(path, delete_path)\n', '        delete_path = path.with_name(path.stem + "_delete" + path.suffix)\n        if delete_path.exists():\n            logging.debug("A stale marker is about to be replaced: %s", delete_path)\n        shutil.move(path, delete_path)\n')),
     ("C12", None, "twin: a stale marker is removed inside a handler that absorbs its absence",
      rep_in(FHS, "_rename_path_for_deletion", '        delete_path = path.with_name(path.stem + "_delete" + path.suffix)\n        shutil.move(path, delete_path)\n', '        delete_path = path.with_name(path.stem + "_delete" + path.suffix)\n        try:\n            os.remove(delete_path)\n        except OSError:\n            pass\n        shutil.move(path, delete_path)\n')),
+    ("C14", "C14.i", "the instance keeps depth and width as the caller spelled them",
+     rep_in(FHS, "__init__", "            self.depth = prop_store_depth\n            self.width = prop_store_width\n",
+            "            self.depth = properties[\"store_depth\"]\n            self.width = properties[\"store_width\"]\n")),
+    ("C15", "C15.h", "the instance keeps depth and width as the caller spelled them",
+     rep_in(FHS, "__init__", "            self.depth = prop_store_depth\n            self.width = prop_store_width\n",
+            "            self.depth = properties[\"store_depth\"]\n            self.width = properties[\"store_width\"]\n")),
+    ("C14", None, "twin: depth and width taken from the validated copy by key",
+     rep_in(FHS, "__init__", "            self.depth = prop_store_depth\n            self.width = prop_store_width\n",
+            "            self.depth = checked_properties[\"store_depth\"]\n            self.width = checked_properties[\"store_width\"]\n")),
     ("C13", "C13.h", "return inside finally swallows the error",
      rep_in(FHS, "_delete_object_only", "        finally:\n            self._release_object_locked_cids(cid)\n", "        finally:\n            self._release_object_locked_cids(cid)\n            return\n")),
 ]
